@@ -165,6 +165,20 @@ void kv_enable(FILE* sink, int level)
         pthread_mutex_unlock(&kv_mu);
 }
 
+/* programs that do not call kv_enable (the kalign command line tool) can be traced by
+   setting KALIGN_VERIF_TRACE=<file> (and optionally KALIGN_VERIF_LEVEL) in the environment */
+__attribute__((constructor)) static void kv_auto_enable(void)
+{
+        const char* path = getenv("KALIGN_VERIF_TRACE");
+        const char* lvl = getenv("KALIGN_VERIF_LEVEL");
+        if(path && path[0]){
+                FILE* f = fopen(path, "a");
+                if(f){
+                        kv_enable(f, lvl ? atoi(lvl) : 1);
+                }
+        }
+}
+
 void kv_disable(void)
 {
         pthread_mutex_lock(&kv_mu);
